@@ -78,6 +78,8 @@ def shards(tier):
     out.append({'kind': 'special', 'tier': tier})
     for first in range(len(HDR_OPS)):
         out.append({'kind': 'hdr', 'tier': tier, 'first': first, 'depth': 5 if tier == 'thorough' else 4})
+    for first in range(len(ARG_OPS)):
+        out.append({'kind': 'args', 'tier': tier, 'first': first, 'depth': 4 if tier == 'thorough' else 3})
     return out
 
 
@@ -97,6 +99,70 @@ def _hdr_fn(ctx, n):
     if isinstance(h, (list, tuple)):
         h = h[0] if h else None
     return 'no-header' if h is None else '%s/%s/%s' % (h.hx, h.s, n)
+
+
+# argument histories on ONE NullServer: full, partial, keyword and faulting calls of one method in every order
+ARG_OPS = [((1, 2), {}), ((3,), {}), ((-1, 7), {}), ((), {'b': 5}), ((), {}), ((4,), {'b': 6}), ((-2,), {})]
+
+
+def arg_program():
+    return {'tns': TNS, 'classes': [], 'services': [{'n': 'S', 'methods': [{'n': 'pair', 'args': [['a', I], ['b', I]], 'ret': U}]}]}
+
+
+def _pair_fn(ctx, a, b):
+    from spyne.model.fault import Fault
+    if a is not None and a < 0:
+        raise Fault('Client.Negative', 'a=%s b=%s' % (a, b))
+    return 'a=%s b=%s' % (a, b)
+
+
+def run_args(shard, res, only=None):
+    """oracle: each call returns (or raises) what the same call gives over the wire (Soap11) on its own"""
+    import itertools
+    from spyne.server.null import NullServer
+    from spyne.model.fault import Fault
+    q = Quad(arg_program())
+    b = q.b
+    res['cov']['programs'] += 1
+    proto, h = [(p, x) for p, x in q.wires if p == 'soap11'][0]
+    script = ('call', _pair_fn)
+    m = b.methods['pair']
+    wire = {}
+    for oi, (a, k) in enumerate(ARG_OPS):
+        vals = [a[0] if len(a) > 0 else None, a[1] if len(a) > 1 else k.get('b')]
+        o = h.call_raw('pair', xsdcodec.build_request(h.codec, m, vals, proto), script=script)
+        if o.fault is not None:
+            wire[oi] = ('fault', str(o.fault.faultcode), str(o.fault.faultstring))
+        else:
+            wire[oi] = ('ok', xsdcodec.parse_response(h.codec, m, o.out, proto)[1])
+    for rest in itertools.product(range(len(ARG_OPS)), repeat=shard['depth'] - 1):
+        hist = [shard['first']] + list(rest)
+        key = ['args', hist]
+        if only is not None and only != key:
+            continue
+        null = NullServer(q.napp, ostr=False)
+        res['evaluations'] += 1
+        good = True
+        for step, oi in enumerate(hist):
+            a, k = ARG_OPS[oi]
+            b.rec.reset()
+            b.rec.script['pair'] = script
+            try:
+                got = ('ok', null.service.pair(*a, **k))
+            except Fault as f:
+                got = ('fault', str(f.faultcode), str(f.faultstring))
+            except Exception as e:
+                got = ('raised', repr(e))
+            if got != wire[oi]:
+                res['violations'].append({'sig': 'C18|argument-history|%s' % ('first-call' if step == 0 else 'later-call'),
+                                          'what': 'history %s on one NullServer: step %d pair(*%r, **%r) gives %r, the wire gives %r' % (
+                                              [ARG_OPS[i] for i in hist], step, a, k, got, wire[oi]),
+                                          'case': {'shard': shard, 'only': key}, 'count': 1})
+                good = False
+                break
+        if good:
+            res['nontrivial'] += 1
+    res['cov']['argument_histories'] = res['evaluations']
 
 
 def run_hdr(shard, res, only=None):
@@ -363,6 +429,8 @@ def run_shard(shard, only=None):
             one_case(q, 'm', argv, retv, res, 'arity|' + name, {'shard': shard, 'only': key})
     elif shard['kind'] == 'hdr':
         run_hdr(shard, res, only)
+    elif shard['kind'] == 'args':
+        run_args(shard, res, only)
     else:
         from spyne.model.fault import Fault
         from spyne import Ignored
